@@ -59,6 +59,31 @@ pub fn collapses_nonbinary_with(e: &Exp, is_bool: &dyn Fn(&str) -> bool) -> bool
     }
 }
 
+/// EXACT impl-side oracle for the repaired singleton collapse (rooc 81a4b76 + e35561f): some and/or node of a
+/// checked source expression (objective, left sides, right sides of comparisons — as written) collapses under
+/// `simplify` to a bare variable that is not declared Boolean. `check_collapsing_logic_operands` lowers that
+/// variable to the context `1 * v` and `is_binary_context` demands the type Boolean on the declared domain, so
+/// `Linearizer::linearize` cannot succeed on such a model (it fails there or earlier): certain ∧ compiled is a
+/// violation. (The flag `nary-singleton-nonbinary` is wider: `(1 - b) and 1` is flagged and legitimately compiles.)
+pub fn certain_collapse(m: &Model) -> bool {
+    fn node(e: &Exp, m: &Model) -> bool {
+        use rooc::BinOp;
+        let here = match e {
+            Exp::And(_) | Exp::Or(_) | Exp::BinOp(BinOp::And, _, _) | Exp::BinOp(BinOp::Or, _, _) =>
+                matches!(e.simplify(), Exp::Variable(n) if !is_bool_var(m, &n)),
+            _ => false,
+        };
+        here || match e {
+            Exp::Number(_) | Exp::Variable(_) => false,
+            Exp::Abs(e) | Exp::Not(e) | Exp::UnOp(_, e) => node(e, m),
+            Exp::Min(es) | Exp::Max(es) | Exp::And(es) | Exp::Or(es) => es.iter().any(|e| node(e, m)),
+            Exp::Xor(a, b) | Exp::Implies(a, b) | Exp::Iff(a, b) | Exp::BinOp(_, a, b) => node(a, m) || node(b, m),
+        }
+    }
+    node(&m.objective().rhs, m)
+        || m.constraints().iter().any(|c| node(c.lhs(), m) || (!c.is_logic_assertion() && node(c.rhs(), m)))
+}
+
 fn has_nonfinite_literal(e: &Exp) -> bool {
     match e {
         Exp::Number(v) => !v.is_finite(),
@@ -101,10 +126,15 @@ pub fn one(m: &Model, tag: &str, prop: &str) -> Case {
             }
             c.tags.sort(); c.tags.dedup();
             c.oracle = format!("{} {} {}", prop, msx, sx::lin_model(&lm));
+            if certain_collapse(m) {
+                c.impl_violation = Some("an and/or node collapses to a variable that is not declared Boolean, and Linearizer::linearize accepted the model (expected NonBinaryLogicOperand: rooc 81a4b76 + e35561f)".into());
+                c.tags.push("certain-collapse-compiled".into());
+            }
         }
         Ok(Err(e)) => {
             c.imp = lin_error(&e);
             c.tags = vec![tag.into(), format!("err:{}", c.imp.split(|ch| ch == ' ' || ch == ')').nth(1).unwrap_or(""))];
+            if certain_collapse(m) { c.tags.push("certain-collapse-rejected".into()); }
         }
         Err(p) => {
             let msg = p.downcast_ref::<String>().cloned().or_else(|| p.downcast_ref::<&str>().map(|s| s.to_string())).unwrap_or_default();
